@@ -476,11 +476,185 @@ def _coo_call(k, ind, data, shape):
     return out
 
 
-HEADER = '''(* GENERATED by vlib/c01_translate.py from bilinear_form.py, linear_form.py, functional.py, coo_data.py
+
+# ------------------------------------------------------------------------------------------ TrilinearForm
+TRI = 'skfem/assembly/form/trilinear_form.py'
+
+
+def trilinear():
+    tree = t2.parse(TRI)
+    fn = t2.find_def(tree, '_assemble', 'TrilinearForm')
+    kn = t2.find_def(tree, '_kernel', 'TrilinearForm')
+    params = [a.arg for a in fn.args.args]
+    if params != ['self', 'ubasis', 'vbasis', 'wbasis'] or fn.args.kwarg is None or fn.args.vararg \
+            or [t2.src(d) for d in fn.args.defaults] != ['None', 'None']:
+        raise TranslateError('TrilinearForm._assemble signature: ' + repr(params))
+    body = _nodoc(fn.body)
+    sc = Scope(['ubasis', 'vbasis', 'wbasis'])
+    out = []
+    pos = 0
+    for b in ('vbasis', 'wbasis'):
+        if t2.src(body[pos]) != f'if {b} is None:\n    {b} = ubasis':
+            raise TranslateError(f'expected "if {b} is None: {b} = ubasis": ' + t2.src(body[pos])[:100])
+        out.append(f'let {b} := match {b}0 with None => ubasis | Some b => b end in')
+        pos += 1
+    b_nt = sc.basis_attr(_name_assign(body[pos], 'nt'), 'nelems'); pos += 1
+    out.append(f'let nt := bnelems {b_nt} in')
+    sc.nats.add('nt')
+    b_dx = sc.basis_attr(_name_assign(body[pos], 'dx'), 'dx'); pos += 1
+    out.append(f'let dx := bdx {b_dx} in')
+    out.append(f'let nq := bnq {b_dx} in')
+    wname, b_w = _params_stmt(body[pos], sc); pos += 1
+    if b_w != ('ubasis', 'ubasis'):
+        raise TranslateError('default parameters must come from ubasis')
+    shp = _name_assign(body[pos], 'sz'); pos += 1
+    if not (isinstance(shp, ast.Tuple) and len(shp.elts) == 4):
+        raise TranslateError('sz: ' + t2.src(shp))
+    d = [sc.nat(e) for e in shp.elts]
+    zero = {'data': 'rO', 'rows': '0', 'cols': '0', 'mats': '0'}
+    seen = []
+    while pos < len(body) and isinstance(body[pos], ast.Assign):
+        tgt, val = _assign(body[pos], 'allocation')
+        nm = t2.src(tgt)
+        if nm not in zero:
+            raise TranslateError('allocation of ' + nm)
+        s = _zeros_call(val, 'self.dtype' if nm == 'data' else 'np.int32')
+        if t2.src(s) != 'sz':
+            raise TranslateError('allocation shape: ' + t2.src(val))
+        out.append(f'let {nm} := nd4_zeros {zero[nm]} {d[0]} {d[1]} {d[2]} {d[3]} in')
+        seen.append(nm)
+        pos += 1
+    if sorted(seen) != ['cols', 'data', 'mats', 'rows']:
+        raise TranslateError('allocations: ' + repr(seen))
+    l0 = body[pos]; pos += 1
+    loops = []
+    cur = l0
+    for _ in range(3):
+        if not (isinstance(cur, ast.For) and isinstance(cur.target, ast.Name) and not cur.orelse):
+            raise TranslateError('expected a nest of three for loops: ' + t2.src(cur)[:100])
+        loops.append((cur.target.id, sc.nat(t2.is_range_of(cur.iter))))
+        nxt = cur.body
+        if len(loops) < 3:
+            if len(nxt) != 1:
+                raise TranslateError('loop nest: unexpected statements')
+            cur = nxt[0]
+    names = [n for n, _ in loops]
+    sc.nats.update(names)
+    out.append(f'bind (for_range {loops[0][1]} (fun {names[0]} => for_range {loops[1][1]} (fun {names[1]} => '
+               f'for_range {loops[2][1]} (fun {names[2]} (st : st4 R) =>')
+    out.append("  let '(data, rows, cols, mats) := st in")
+    written = []
+    for st in cur.body:
+        tgt, val = _assign(st, 'loop body')
+        if not (isinstance(tgt, ast.Subscript) and isinstance(tgt.value, ast.Name) and tgt.value.id in zero):
+            raise TranslateError('loop body store: ' + t2.src(st)[:120])
+        ix = t2.index_tuple(tgt)
+        if not (len(ix) == 3 and all(isinstance(e, ast.Name) and e.id in names for e in ix)):
+            raise TranslateError('store index: ' + t2.src(tgt))
+        arr = tgt.value.id
+        ixs = ' '.join(e.id for e in ix)
+        if arr == 'data':
+            args = _kernel_call(val, sc, 3, wname, 'dx')
+            rhs = ('(gen_trilinear_kernel form ' + ' '.join(f'(bB {b} {k})' for b, k in args) + ' params dx nt nq)')
+        else:
+            b, k = sc.basis_item(val, 'element_dofs')
+            rhs = f'(element_dofs {b} {k})'
+        out.append(f'  bind (nd4_set_row {ixs} {rhs} {arr}) (fun {arr} =>')
+        written.append(arr)
+    if sorted(written) != ['cols', 'data', 'mats', 'rows']:
+        raise TranslateError('loop body must store mats, rows, cols and data exactly once: ' + repr(written))
+    out.append('  Some (data, rows, cols, mats))))))))')
+    out.append('  (data, rows, cols, mats))')
+    ret = body[pos]
+    if pos != len(body) - 1 or not (isinstance(ret, ast.Return) and isinstance(ret.value, ast.Tuple) and len(ret.value.elts) == 4):
+        raise TranslateError('return statement: ' + t2.src(ret)[:200])
+    ind, dat, shape, lshape = ret.value.elts
+    if not (isinstance(ind, ast.Call) and t2.src(ind.func) == 'np.array' and len(ind.args) == 1 and isinstance(ind.args[0], ast.List)):
+        raise TranslateError('returned indices: ' + t2.src(ind))
+    inds = []
+    for e in ind.args[0].elts:
+        sname = t2.src(e)
+        if sname not in ('mats.flatten()', 'rows.flatten()', 'cols.flatten()'):
+            raise TranslateError('returned index array: ' + sname)
+        inds.append(f'flatten4 {sname.split(".")[0]}')
+    if t2.src(dat) != 'data.flatten()':
+        raise TranslateError('returned data: ' + t2.src(dat))
+    sh = '; '.join(sc.nat(e) for e in shape.elts)
+    lsh = '; '.join(sc.nat(e) for e in lshape.elts)
+    out.append("(fun st => let '(data, rows, cols, mats) := st in")
+    out.append(f'  Some (mkCoo [{"; ".join(inds)}] (flatten4 data) [{sh}] [{lsh}])).')
+    fields, order, wn, dxn = _kernel_def(kn, 3)
+    kern = (f'Definition gen_trilinear_kernel (form : V -> V -> V -> W -> R) ({" ".join(fields)} : nat -> nat -> V) '
+            f'(params : nat -> nat -> W) (dx : nat -> nat -> R) (nt nq : nat) : list R :=\n'
+            f'  sum_axis1 R rO radd nt nq (fun e q => rmul (form ({order[0]} e q) ({order[1]} e q) ({order[2]} e q) (params e q)) (dx e q)).')
+    head = ('Definition gen_trilinear_assemble (form : V -> V -> V -> W -> R) (params : nat -> nat -> W)\n'
+            '    (ubasis : basis R V) (vbasis0 wbasis0 : option (basis R V)) : option (coo R) :=\n  ')
+    # COOData.toarray, N-tensor branch
+    ta = t2.find_def(t2.parse(COO), 'toarray', 'COOData')
+    tail = [' '.join(t2.src(x).split()) for x in _nodoc(ta.body)[1:]]
+    want = ['out = np.zeros(self.shape)', 'for itr in range(self.indices.shape[1]): out[tuple(self.indices[:, itr])] += self.data[itr]',
+            'return out']
+    if [t for t in tail if not t.startswith('out = np.zeros(self.shape')][0:] != want[1:] or not tail or not tail[0].startswith('out = np.zeros(self.shape'):
+        raise TranslateError('COOData.toarray N-tensor branch: ' + repr(tail))
+    dense = ('Definition gen_to_dense3 (c : coo R) : option (list (list (list R))) :=\n  match c_shape c with\n'
+             '  | [n0; n1; n2] => dense3 R rO radd (nth 0 (c_indices c) []) (nth 1 (c_indices c) []) (nth 2 (c_indices c) []) (c_data c) n0 n1 n2\n'
+             '  | _ => None\n  end.')
+    return kern + '\n\n' + head + '\n  '.join(out) + '\n\n' + dense
+
+# ------------------------------------------------------------------------------------------ FacetBasis: which cell is "side s"
+FB = 'skfem/assembly/basis/facet_basis.py'
+
+
+def facet_sides():
+    """FacetBasis.__init__: the row of f2t that supplies the cell of each facet, for oriented facet sets and plain ones.
+    `(-1) ** side` is folded for side = 0, 1; the remaining expression is linear in ori and translated to Z."""
+    fn = t2.find_def(t2.parse(FB), '__init__', 'FacetBasis')
+    blk = [x for x in ast.walk(fn) if isinstance(x, ast.If) and t2.src(x.test) == 'isinstance(self.find, OrientedBoundary)']
+    blk = t2.only(blk, 'orientation branch of FacetBasis.__init__')
+
+    def row(stmts, target):
+        st = t2.only([x for x in stmts if isinstance(x, ast.Assign) and t2.src(x.targets[0]) == target], target)
+        v = st.value
+        if not (isinstance(v, ast.Subscript) and t2.src(v.value) == 'self.mesh.f2t'):
+            raise TranslateError(f'{target}: expected self.mesh.f2t[row, self.find]: ' + t2.src(v))
+        ix = t2.index_tuple(v)
+        if len(ix) != 2 or t2.src(ix[1]) != 'self.find':
+            raise TranslateError(f'{target}: index ' + t2.src(v))
+        return ix[0]
+
+    class Fold(ast.NodeTransformer):
+        def __init__(self, side):
+            self.side = side
+
+        def visit_BinOp(self, n):
+            if isinstance(n.op, ast.Pow) and t2.src(n.left) in ('(-1)', '-1') and t2.src(n.right) == 'side':
+                return ast.copy_location(ast.Constant(1 if self.side == 0 else -1), n)
+            self.generic_visit(n)
+            return n
+
+        def visit_Name(self, n):
+            return ast.copy_location(ast.Constant(self.side), n) if n.id == 'side' else n
+    import copy
+    ex = t2.Expr({'self.find.ori': 'ori'}, 'Z')
+    ot, on = row(blk.body, 'self.tind'), row(blk.body, 'self.tind_normals')
+    pt, pn = row(blk.orelse, 'self.tind'), row(blk.orelse, 'self.tind_normals')
+    out = []
+    for sd in (0, 1):
+        e = ast.fix_missing_locations(Fold(sd).visit(copy.deepcopy(ot)))
+        out.append(f'Definition gen_oriented_row{sd} (ori : Z) : Z := {ex.tr(e)}.')
+    out.append(f'Definition gen_oriented_normal_row (ori : Z) : Z := {ex.tr(on)}.')
+    if t2.src(pt) != 'side' or t2.src(pn) != '0':
+        raise TranslateError('plain facet sets: rows of f2t: ' + t2.src(pt) + ', ' + t2.src(pn))
+    out.append('Definition gen_plain_row (side : Z) : Z := side.\nDefinition gen_plain_normal_row : Z := 0%Z.')
+    return ('(* FacetBasis.__init__: row of f2t (negative rows count from the end: row mod 2) giving the cell on side 0 / 1 *)\n'
+            + '\n'.join(out))
+
+
+HEADER = '''(* GENERATED by vlib/c01_translate.py from bilinear_form.py, linear_form.py, functional.py, trilinear_form.py, coo_data.py
    of the implementation under test — do not edit *)
 From Coq Require Import List Arith Bool.
 Import ListNotations.
-Require Import Base.C01_Sums Model.C01_Assembly.
+Require Import Base.C01_Sums Model.C01_Assembly Model.C01_Trilinear.
 
 Section Gen.
   Variable R : Type.
@@ -491,7 +665,7 @@ Section Gen.
 
 
 def translate():
-    parts = [bilinear(), linear(), functional(), coodata()]
+    parts = [bilinear(), linear(), functional(), coodata(), trilinear()]
     body = '\n\n'.join(parts)
     body = '\n'.join(('  ' + l if l else l) for l in body.split('\n'))
-    return HEADER + body + '\nEnd Gen.\n'
+    return HEADER + body + '\nEnd Gen.\n\nRequire Import ZArith.\nLocal Open Scope Z_scope.\n' + facet_sides() + '\n'
